@@ -233,6 +233,9 @@ func c03model(c *Ctx) {
 		{"pentagon", []c03ring{{pent, false}}},
 		{"shell+hole", []c03ring{{shell, false}, {hole1, true}}},
 		{"shell+2holes", []c03ring{{shell, false}, {hole1, true}, {hole2, true}}},
+		// the rings of a polygon are a set: the shell need not come first
+		{"2holes+shell", []c03ring{{hole1, true}, {hole2, true}, {shell, false}}},
+		{"hole+shell+hole", []c03ring{{hole2, true}, {shell, false}, {hole1, true}}},
 	}
 
 	// ---------------------------------------------------------------- Polygon.Area (geom)
